@@ -110,12 +110,25 @@ def run_array(case):
             subsets.append((rng.choice([x for x in devs if x[0] == "data"]),))
             datas = [x for x in devs if x[0] == "data"]
             subsets.append(tuple(rng.sample(datas, min(a.nlev, len(datas)))))
+        # split layouts: one split FILE of a level is lost (its disk died) while the other files of the level survive
+        for l in range(a.nlev):
+            pp = [p_ for p_ in a.ppaths(l) if os.path.exists(p_) and os.path.getsize(p_) > 0]
+            if len(pp) >= 2:
+                picks = list(range(len(pp))) if tier == "thorough" else [0, rng.randrange(len(pp))]
+                for k_ in sorted(set(picks)):
+                    subsets.append((("split", (l, k_)),))
+                    if a.nlev >= 2:
+                        subsets.append((("split", (l, k_)), rng.choice([x for x in devs if x[0] == "data"])))
         n = 0
         for sub in subsets:
             tpl.restore()
+            sizes0 = {p_: os.path.getsize(p_) for p_ in a.all_parity_paths() if os.path.exists(p_)}
             for kind, i in sub:
                 if kind == "data":
                     scen.wipe_disk(a, i)
+                elif kind == "split":
+                    os.unlink([p_ for p_ in a.ppaths(i[0]) if os.path.exists(p_) and os.path.getsize(p_) > 0][i[1]])
+                    res["counters"]["single_split_files_lost"] = res["counters"].get("single_split_files_lost", 0) + 1
                 else:
                     for p in a.ppaths(i):
                         if os.path.exists(p):
@@ -133,6 +146,15 @@ def run_array(case):
             rc = a.cmd("check", *extra, variant=variant)
             if rc.rc != 0:
                 res["violations"].append(("reference-array-check-fails-after-fix", "%s lost %s: check rc=%s" % (name, list(sub), rc.rc), rep2))
+            elif any(k_ == "split" for k_, _i in sub):
+                # the recorded split sizes still describe the files: a non-last split has exactly its old size again
+                for l in range(a.nlev):
+                    pp = [p_ for p_ in a.ppaths(l) if p_ in sizes0 and sizes0[p_] > 0]
+                    for p_ in pp[:-1]:
+                        if not os.path.exists(p_) or os.path.getsize(p_) != sizes0[p_]:
+                            res["violations"].append(("reference-split-layout-changed-by-fix", "%s lost %s: %s is %s bytes, was %d" %
+                                                       (name, list(sub), os.path.basename(p_), os.path.getsize(p_) if os.path.exists(p_) else None, sizes0[p_]), rep2))
+                            break
         # the user adds a brand new, empty data disk to the configuration: the reference-written content has no record for
         # it; everything must still load, verify and be repairable (the new disk gets a free position)
         tpl.restore()
